@@ -47,6 +47,64 @@ def Culture.monthHeadsEmpty (cu : Culture) : Bool :=
   [cu.longMonths, cu.shortMonths, cu.longMonthsGen, cu.shortMonthsGen].all (fun t => decide (t.headD [] = []))
 
 
+/-- the steps the LocalTime handler table can produce (field ranges as in `_LocalTimePatternParser`) -/
+def timeStepWF : Step → Bool
+  | .lit _ => true
+  | .semi => true
+  | .amPm _ => true
+  | .frac count scale _ => decide (count ≤ 9) && decide (scale = 9)
+  | .dotFrac count scale _ => decide (count ≤ 9) && decide (scale = 9)
+  | .num _ st _ _ minV maxV =>
+    (decide (st = .hours12) && decide (minV = 1) && decide (maxV = 12)) ||
+    (decide (st = .hours24) && decide (minV = 0) && decide (maxV = 23)) ||
+    (decide (st = .minutes) && decide (minV = 0) && decide (maxV = 59)) ||
+    (decide (st = .seconds) && decide (minV = 0) && decide (maxV = 59))
+  | _ => false
+
+/-- the slot a step's parse action assigns, if any -/
+def stepSets : Step → Option Slot
+  | .num _ st _ _ _ _ => some st
+  | .frac _ _ _ => some .fraction
+  | .dotFrac _ _ _ => some .fraction
+  | .signRequired => some .sign
+  | .signNegativeOnly => some .sign
+  | .amPm _ => some .amPm
+  | .monthText _ => some .monthText
+  | .dayText _ => some .dayOfWeek
+  | .era => some .era
+  | _ => none
+
+def plainSteps : List Seg → List Step
+  | [] => []
+  | .plain ss :: segs => ss ++ plainSteps segs
+  | _ :: segs => plainSteps segs
+
+def isDateSeg : Seg → Bool
+  | .date _ => true
+  | _ => false
+
+def isTimeSeg : Seg → Bool
+  | .time _ => true
+  | _ => false
+
+def segInnerWF : Seg → Bool
+  | .plain _ => true
+  | .date c => c.steps.all dtStepWF && fieldsSound c.used c.steps && c.cu.monthHeadsEmpty
+  | .time c => c.steps.all timeStepWF
+
+/-- well-formedness of a LocalDateTime pattern with embedded parts (the hypothesis of
+    `C08.parseSegmented_valid`; evaluated by the driver on the patterns of a run): plain steps and embedded patterns
+    are well formed and account for the used fields; when the pattern has an embedded date (time), one is there and
+    no plain step assigns the year / month / day (hour / minute / second / fraction) slots -/
+def segWF (cu : Culture) (used : Nat) (segs : List Seg) : Bool :=
+  (plainSteps segs).all dtStepWF && fieldsSound used (plainSteps segs) && cu.monthHeadsEmpty && segs.all segInnerWF &&
+  (!hasAny used F.embeddedDate ||
+    (segs.any isDateSeg && (plainSteps segs).all (fun s => stepSets s ≠ some .year && stepSets s ≠ some .monthNum &&
+      stepSets s ≠ some .dayOfMonth))) &&
+  (!hasAny used F.embeddedTime ||
+    (segs.any isTimeSeg && (plainSteps segs).all (fun s => stepSets s ≠ some .hours24 && stepSets s ≠ some .minutes &&
+      stepSets s ≠ some .seconds && stepSets s ≠ some .fraction)))
+
 /-! ### name tables: the decidable conditions of the text-step round-trip theorems (`PyodaProofs/C07Text.lean`)
 
   `_add_parse_longest_text_action` takes the longest candidate (first table, then second) that matches the text
